@@ -379,6 +379,60 @@ pub fn run(ctx: &mut Ctx) {
             case += 1;
         }
     }
+    // ---- the same clauses through whole-archive writes, also when the archive does not start at stream position 0
+    for k in 0..ctx.n(8, 64) {
+        if ctx.mine(case) {
+            ctx.begin(case);
+            let mut rng = ctx.rng("c06.archive", k);
+            let codec = R::CODECS[(k % 4) as usize];
+            let nt = if codec == R::C_NONE { rng.usize(2200, 5000) } else { 6000 };
+            let l = crate::checks::c15::spill_logical(&mut rng, codec, nt);
+            let p: u64 = *rng.pick(&[0u64, 1, 777, 20_000]);
+            let asyncm = (k / 4) % 2 == 1;
+            let m = json!({"archive": l.describe(), "start_position": p, "async": asyncm});
+            let (res, data, pos) = if asyncm {
+                let mut s = AInst::new(vec![0x44; p as usize]);
+                s.c.pos = p;
+                let r = guard(|| block_on(l.build_async().to_async_writer(&mut s)));
+                (r, s.c.data, s.c.pos)
+            } else {
+                let mut s = Inst::new(vec![0x44; p as usize]);
+                s.c.pos = p;
+                let r = guard(|| l.build().to_writer(&mut s));
+                (r, s.c.data, s.c.pos)
+            };
+            let api = if asyncm { "PMTiles::to_async_writer" } else { "PMTiles::to_writer" };
+            match res {
+                Err(pn) => ctx.panic(api, &pn, m),
+                Ok(Err(e)) => ctx.violation(api, "error", "writing a leaf-spilling archive failed", &e.to_string(), m),
+                Ok(Ok(())) => {
+                    let end = (pos as usize).min(data.len());
+                    let probes = crate::checks::common::lookup_probes(&l, &mut rng, 20);
+                    match crate::checks::common::verify_archive_bytes(&data[(p as usize).min(end)..end], &l, &probes) {
+                        Ok(v) => {
+                            if v.header.leaf_length == 0 {
+                                ctx.inconclusive("C06 whole-archive clause: archive did not spill");
+                            }
+                            if v.header.root_length > ROOT_BUDGET as u64 {
+                                ctx.violation(api, "root-budget", "root directory exceeds 16257 bytes (whole archive)", &format!("{} bytes", v.header.root_length), m);
+                            }
+                            ctx.count("whole_archive_spills_judged");
+                        }
+                        Err(e) => ctx.violation(
+                            api,
+                            "mapping",
+                            "resolving root and leaves of the written archive does not reproduce the entries (whole archive)",
+                            &format!("start position {p}: {e}"),
+                            m,
+                        ),
+                    }
+                }
+            }
+            ctx.case(crate::rng::hash_u64s(&[l.fingerprint(), p]), true);
+            ctx.end(case);
+        }
+        case += 1;
+    }
     // ---- very regular long lists: far more than 16257 entries, yet a few hundred bytes once compressed
     for (k, n) in [16_257usize, 16_258, 20_000, 70_000, 200_000].iter().enumerate() {
         for codec in R::CODECS {
